@@ -2,6 +2,7 @@
 
 All seams are module or class attributes set from outside; nothing in /repo is edited.
 """
+import sys
 import logging
 import random
 import threading
@@ -233,6 +234,7 @@ class Seams:
         self._set(UST, "join", join)
         self._set(UST, "is_alive", is_alive)
 
+        self._install_line_preemption()
         P = conn_mod.Packet
         self._pkt_saved = {n: getattr(P, n) for n in ("MTU", "MAX_SIZE", "MAX_PAYLOAD_SIZE", "MAX_SIZE_CRC",
                                                      "MAX_FRAGMENT_SIZE", "RECV_SIZE")}
@@ -246,7 +248,47 @@ class Seams:
         lg.setLevel(logging.ERROR)
         return self
 
+    def _install_line_preemption(self):
+        """Every source line of the functions that run on (or talk to) the server's threads is a pre-emption point
+        of a baton thread: sys.monitoring LINE events, local to those code objects (Python >= 3.12)."""
+        self._mon_codes = []
+        mon = getattr(sys, "monitoring", None)
+        if mon is None:
+            return
+        tool = 4
+        try:
+            if mon.get_tool(tool) is None:
+                mon.use_tool_id(tool, "verif-simkit")
+        except Exception:       # noqa
+            return
+        k = self.k
+        mon.register_callback(tool, mon.events.LINE, lambda code, line: k.line_event())
+        UST = server_mod.UdpServerThread
+        fns = [UST.run, UST.append, UST._wake, UST.send, server_mod._UdpServer.run,
+               twisted_mod.TwistedServer.datagramReceived, twisted_mod.TwistedServer.sendPackets,
+               twisted_mod.TwistedServer.sendPacketsUnsafe, twisted_mod.TwistedServer.stop]
+        for fn in fns:
+            code = getattr(fn, "__code__", None)
+            if code is not None:
+                mon.set_local_events(tool, code, mon.events.LINE)
+                self._mon_codes.append(code)
+        self._mon_tool = tool
+
+    def _remove_line_preemption(self):
+        mon = getattr(sys, "monitoring", None)
+        if mon is None or not getattr(self, "_mon_codes", None):
+            return
+        for code in self._mon_codes:
+            mon.set_local_events(self._mon_tool, code, 0)
+        mon.register_callback(self._mon_tool, mon.events.LINE, None)
+        try:
+            mon.free_tool_id(self._mon_tool)
+        except Exception:       # noqa
+            pass
+        self._mon_codes = []
+
     def __exit__(self, *exc):
+        self._remove_line_preemption()
         lg = logging.getLogger("mpgameserver")
         lg.setLevel(self._log_saved[0])
         lg.propagate = self._log_saved[1]
